@@ -80,6 +80,7 @@ class Inj:
 
   def new_blk(s, host, lines, writes, reads=(), ff=False):
     name = f'xb{s.nb}'; s.nb += 1
+    if not ff and s.rng.random() < 0.4: lines = s.b.wrap_helpers(host, lines)       # the driver acts through @s.func helpers
     s.d.stmts[host].append(('blk', name, ff, lines, list(writes), list(reads)))
     return name
 
@@ -152,7 +153,7 @@ class Inj:
       e2 = s.related(v, how)
       if e2 is None or e2.T[0] != 'b': continue
       if how == 'sibling-touch' and not s.b.free(e2): continue
-      c = s.b.const_for(e2.T, v.sig.inst)
+      c = s.b.const_for(e2.T, v.sig.inst, tied=e2)
       if c is None: continue
       s.d.stmts[v.sig.inst].append(('conn', e2, c))
       s.b.drv[e2.sig.root] = s.b.drv.get(e2.sig.root, 0) | e2.mask
@@ -303,7 +304,9 @@ class Inj:
       e, old = st[4][k]
       if what.endswith('aug') and e.T[0] != 'b': continue
       # the k-th write statement is the k-th line that assigns a signal
-      idx = [i for i, l in enumerate(st[3]) if f' {old} ' in l][k]
+      cand_lines = [i for i, l in enumerate(st[3]) if f' {old} ' in l]
+      if len(cand_lines) != len(st[4]): continue            # some writes of this block live in helper functions
+      idx = cand_lines[k]
       st[3][idx] = st[3][idx].replace(f' {old} ', f' {ok[1]} ', 1)
       st[4][k] = (e, ok[1])
       return True
@@ -422,7 +425,7 @@ def coq_design(d, orders=None, flips=None):
         a, b = nid(t[1]), nid(t[2])
         if (flips or {}).get((h, k), (False, 0))[0]: a, b = b, a
         cn.append(f'mkC {a}%nat {b}%nat {cid[h]}%nat')
-      else:
+      elif t[0] == 'blk':
         _, name, ff, lines, writes, reads = t
         myid = sorted(x[1] for hh in insts for x in d.stmts[hh] if x[0] == 'blk').index(name)
         for e, op in writes:
@@ -494,6 +497,14 @@ def run(ctx):
       ctx.hist['not-applicable:' + inj] = ctx.hist.get('not-applicable:' + inj, 0) + 1
       inj = 'none*'
     applied[inj] = applied.get(inj, 0) + 1
+    feats = set(d.features)
+    cv = {}
+    for h, st in d.conns():
+      for e in (st[1], st[2]):
+        if isinstance(e, ConstEP): cv.setdefault((h, e.value), set()).add(e.T)
+    if any(len(v) > 1 for v in cv.values()) or any(sum(1 for hh, st in d.conns() if hh == h and any(isinstance(e, ConstEP) and e.value == val for e in (st[1], st[2]))) > 1 for (h, val) in cv):
+      feats.add('equal-constants-in-one-component')
+    for f in feats: ctx.hist['feature:' + f] = ctx.hist.get('feature:' + f, 0) + 1
     clsname = f'Top_{d.name}'
     K = 10 if quick else 12
     if inj.startswith('same-blk:parent+field'): K = 40
